@@ -287,7 +287,7 @@ def _template_safe_table(chk, repo) -> None:
             chk.ok("R10a", key, "template_safe_fixes = False")
             continue
         if key == base_key:
-            chk.fail("R10a", n, "BaseRule.template_safe_fixes no longer defaults to False: every rule skips the template-safety discard", detail="BaseRule default is False")
+            chk.fail("R10a", n, "BaseRule.template_safe_fixes no longer defaults to False: every rule skips the template-safety discard", detail="BaseRule default is False", construct=key)
             continue
         seen_true.add(key)
         reason = TEMPLATE_SAFE.get(key)
@@ -412,11 +412,20 @@ def _r10c(chk, repo) -> None:
             chk.require(
                 why is not None, "R10c", n,
                 "a patch is kept without a dominating test that it touches only literal source, is an explicit source patch, or is a zero-length insert on a raw-slice boundary: an edit overlapping template code reaches the file",
-                detail=f"append #{n_app}: dominated by an accepted keep condition",
+                detail=f"append {_where(cfg, st)}: dominated by an accepted keep condition",
             )
             chk.sample({"rule": "R10c", "site": f"{PATCH}:{n.lineno}", "kept_because": why})
     chk.count("R10c.filtered_append_sites", n_app)
     chk.floor("R10c.filtered_append_sites", 1)
+
+
+def _where(cfg, st) -> str:
+    """Stable description of the arm a statement sits in (innermost guarding test)."""
+    gs = [g for g in cfg.guards(st) if isinstance(g.stmt, ast.If)]
+    if not gs:
+        return "unconditional"
+    g = max(gs, key=lambda g: (g.stmt.lineno, g.stmt.col_offset))
+    return ("under " if g.polarity else "else of ") + "'" + short(g.stmt.test, 70) + "'"
 
 
 def _spanning_call(cfg, e, at, fo):
@@ -570,9 +579,15 @@ VARIANTS = [
         "R10a", "Rule_LT01",
     ),
     Variant(
-        "discard-ignores-conflicts", BASE,
+        "discard-logs-but-keeps-conflicting-fixes", BASE,
+        "                lint_result.fixes = []\n                return\n",
+        "                return\n",
+        "R10a", "discard_unsafe_fixes",
+    ),
+    Variant(
+        "discard-tests-other-file", BASE,
         "            if fix.has_template_conflicts(templated_file):\n",
-        "            if False and fix.has_template_conflicts(templated_file):\n",
+        "            if fix.has_template_conflicts(None):\n",
         "R10a", "discard_unsafe_fixes",
     ),
     Variant(
